@@ -1,12 +1,11 @@
 //! MIR view: CFG per body with named places, resolved callees, aggregates, asserts.
-use crate::hirview::{dpath, mac_chain, span_file, span_json, ty_str};
+use crate::hirview::{dpath, dpath_args, mac_chain, span_file, span_json, ty_str};
 use crate::json::J;
 use rustc_hir::def::DefKind;
 use rustc_middle::mir::{
     self, AggregateKind, AssertKind, BasicBlock, Body, Const, ConstValue, Local, Operand, Place,
     PlaceElem, Rvalue, StatementKind, TerminatorKind, UnwindAction, VarDebugInfoContents,
 };
-use rustc_middle::ty::print::with_no_trimmed_paths;
 use rustc_middle::ty::{self, Instance, Ty, TyCtxt, TypingEnv};
 
 pub fn const_value_str<'tcx>(tcx: TyCtxt<'tcx>, val: ConstValue) -> Option<String> {
@@ -263,7 +262,7 @@ impl<'a, 'tcx> Cx<'a, 'tcx> {
                 j.set("fn", J::s(dpath(tcx, *did)));
                 j.set(
                     "fn_full",
-                    J::s(with_no_trimmed_paths!(tcx.def_path_str_with_args(*did, args))),
+                    J::s(dpath_args(tcx, *did, args)),
                 );
                 return j;
             }
@@ -531,7 +530,7 @@ impl<'a, 'tcx> Cx<'a, 'tcx> {
                     j.set("callee", J::s(dpath(tcx, *did)));
                     j.set(
                         "callee_full",
-                        J::s(with_no_trimmed_paths!(tcx.def_path_str_with_args(*did, gargs))),
+                        J::s(dpath_args(tcx, *did, gargs)),
                     );
                     // resolve trait methods to the impl
                     if let Ok(Some(inst)) = Instance::try_resolve(tcx, self.typing_env, *did, gargs)
